@@ -2,4 +2,5 @@
 import hashlib
 
 def obj_seed(obj):
-    return int(hashlib.sha1(hash(obj).to_bytes(8, 'big', signed=True)).hexdigest(), 16)
+    # repr() rather than hash(): str hashes are salted per process (PYTHONHASHSEED)
+    return int(hashlib.sha1(repr(obj).encode()).hexdigest(), 16)
